@@ -237,7 +237,9 @@ def fmt_pair_indices(ctx):
 
 
 def del_discipline(ctx):
-    return _sub_result(ctx, "c02", ["C02.R2", "C02.R3", "C02.R4", "C02.R5", "C02.R6", "C02.R7"])
+    # (R8 / R9: the markers handed to the back-to-front deletion are disjoint - children absorbed into head and tail, halves kept
+    # apart - otherwise a later range lies behind the end of the text that an earlier deletion has already shortened)
+    return _sub_result(ctx, "c02", ["C02.R2", "C02.R3", "C02.R4", "C02.R5", "C02.R6", "C02.R7", "C02.R8", "C02.R9"])
 
 
 def mr_cursor_shape(ctx):
